@@ -925,3 +925,26 @@ void h_ip_set_ops_t(void) { VF_INPUT(unsigned char, which); VF_ASSUME(which <= 3
   else if (which == 1) B_SETOP(3, OP_INTER, ip_set_op(1, a, a + na, b, b + nb, d, c), "set_intersection", 0, 2)
   else if (which == 2) B_SETOP(3, OP_DIFF, ip_set_op(2, a, a + na, b, b + nb, d, c), "set_difference", 0, 2)
   else B_SETOP(3, OP_SYM, ip_set_op(3, a, a + na, b, b + nb, d, c), "set_symmetric_difference", 0, 2) }
+
+/* ---- argument order of binary predicates: pred = (first argument < second argument), ranges of length <= 3 */
+/*@GROUP name=arg_order props=C06,C02 kind=B bound=len<=3,needle<=2 unwind=6 solver=kissat objbits=12 timeout=600 split=VF_W:0:5@*/
+void h_arg_order(void) { VF_INPUT(unsigned char, n); VF_INPUT(unsigned char, m); __CPROVER_assume(n <= 3 && m <= 2); VF_BUF(int, a, n, 3); VF_BUF(int, b, m, 2); VF_INPUT(int, v); VF_INPUT(signed char, cnt); __CPROVER_assume(cnt >= 0 && cnt <= 3); const int which = VF_W;
+  if (which == 0) { /* search_n: first i with pred(a[i+k], v) for all k < cnt */
+    long e = n; for (int i = 3; i >= 0; --i) if (i + cnt <= n) { _Bool ok = 1; for (int k = 0; k < 3; ++k) if (k < cnt && !(a_in[i + k] < v)) ok = 0; if (ok) e = i; }
+    if (cnt == 0) e = 0; VF_ASSERT(ao_search_n(a, a + n, cnt, &v) - a == e, "search_n(first, last, count, value, pred): pred(*i, value) - element first, value second"); }
+  else if (which == 1) { /* search: pred(a[i+k], b[k]) (find_end with a predicate ran out of memory even at length 2) */
+    long fst = n, lst = n; for (int i = 3; i >= 0; --i) if (i + m <= n) { _Bool ok = 1; for (int k = 0; k < 2; ++k) if (k < m && !(a_in[i + k] < b_in[k])) ok = 0; if (ok) { fst = i; if (lst == n) lst = i; } }
+    if (m == 0) { fst = 0; lst = n; }
+    VF_ASSERT(ao_search(a, a + n, b, b + m) - a == fst, "search(..., pred): pred(element of the haystack, element of the needle)"); (void)lst; }
+  else if (which == 2) { long e = n; for (int i = 2; i >= 0; --i) if (i < n) for (int k = 0; k < 2; ++k) if (k < m && a_in[i] < b_in[k]) e = i;
+    VF_ASSERT(ao_find_first_of(a, a + n, b, b + m) - a == e, "find_first_of(..., pred): pred(element of the first range, element of the set)"); }
+  else if (which == 3) { long e = n; for (int i = 1; i >= 0; --i) if (i + 1 < n && a_in[i] < a_in[i + 1]) e = i;
+    VF_ASSERT(ao_adjacent_find(a, a + n) - a == e, "adjacent_find(first, last, pred): pred(*i, *(i + 1))"); }
+  else if (which == 4) { long e = 0; while (e < n && e < m && a_in[e] < b_in[e]) ++e;
+    VF_ASSERT(ao_mismatch(a, a + n, b, b + m) == e, "mismatch(..., pred): pred(element of range 1, element of range 2)");
+    _Bool eq = n == m; for (int i = 0; i < 2; ++i) if (i < n && i < m && !(a_in[i] < b_in[i])) eq = 0; VF_ASSERT(ao_equal(a, a + n, b, b + m) == eq, "equal(..., pred): pred(element of range 1, element of range 2)"); }
+  else { /* unique: an element is dropped when pred(last kept, element) holds */
+    int exp[3]; long en = 0; for (int i = 0; i < 3; ++i) if (i < n) { if (en == 0 || !(exp[en - 1] < a_in[i])) { exp[en] = a_in[i]; ++en; } }
+    long r = ao_unique(a, a + n) - a; VF_ASSERT(r == en, "unique(first, last, pred): pred(previous kept element, current element)"); for (int i = 0; i < 3; ++i) if (i < en) VF_ASSERT(a[i] == exp[i], "unique(pred): kept elements"); }
+  VF_REACH(); }
+
